@@ -3,7 +3,7 @@
 1. design level: TLC checks the rule catalogue of specs/rules/BlockRules.tla on an abstract block universe
    (MC_BlockRules): base blocks violate nothing, every departure violates its rule (and only declared ones), declared
    non-violations stay valid; deliberately wrong claims are refuted (teeth).
-2. model -> implementation: cmd/blockrules builds, for valid base blocks of real chains under eight fork profiles, the
+2. model -> implementation: cmd/blockrules builds, for valid base blocks of real chains under twelve fork / history profiles, the
    REAL block of every catalogue entry (re-signed by the legitimate proposer; VRF, txs root, execution results
    re-derived), plus structurally arbitrary blocks, and feeds them to consensus.Process (fresh / warm) and the node
    import. Trace_BlockRules.tla derives the expected verdict of every block from its projection and compares.
@@ -28,7 +28,7 @@ def run(ctx):
     r = ctx.tlc_must_hold("rules", "MC_BlockRules", cfg="MC_BlockRules_quick.cfg" if q else "MC_BlockRules_thorough.cfg",
                           workers=4 if q else 8, timeout=900 if q else 3000, label="catalogue on the abstract universe")
     spec_cat = {(e["rule"], e["var"]): e["expect"] for e in br.parse_catalogue(r.out)}
-    teeth = ["NoDeparture", "BenefAlways"] if q else ["NoDeparture", "BenefAlways", "SingleRule"]
+    teeth = ["NoDeparture"] if q else ["NoDeparture", "BenefAlways", "SingleRule"]
     for t in teeth:
         tr = ctx.tlc("rules", "MC_BlockRules", cfg="MC_BlockRules_teeth_%s.cfg" % t, workers=4, timeout=600, count=False,
                      label="teeth: a wrong claim must be refuted")
@@ -63,7 +63,7 @@ def run_cases(ctx, spec_cat, basefee_only=False):
     if basefee_only:
         events, blobs, summary, argv, only = [], {}, {}, ["blockrules", "-mode", "basefee"], []
     else:
-        events, blobs, summary, argv = br.run_driver(ctx, "main", args + ["-mode", mode, "-arb", str(120 if q else 1500)] + only,
+        events, blobs, summary, argv = br.run_driver(ctx, "main", args + ["-mode", mode, "-arb", str(80 if q else 1500)] + only,
                                                      timeout=900 if q else 3000)
     cases = [e for e in events if e["e"] != "End"]
     if not q and not only and not basefee_only:
@@ -158,7 +158,7 @@ def run_cases(ctx, spec_cat, basefee_only=False):
         "children are fully valid, so consensus.Process accepts exactly the specification's value",
         "slot ownership and expected score come from the scheduler package on the parent state (C05's subject), not from consensus",
         "re-execution results come from the runtime on a pre-state transcribed from the proposing side; it reproduces every base block",
-        "'not in the future' is excluded from mutation (depends on the clock); blocked origins (BLOCKLIST) are not exercised: no keys",
+        "'not in the future' is excluded from mutation (depends on the clock); thor's blocklist table is replaced (thor.MockBlocklist) by one dev account",
         "structurally arbitrary input is sampled; expected verdicts exist only where the projection is decidable",
         "error class is demanded (IsCritical) for all rules except a tx that cannot start / whose signer cannot be recovered",
     ]
